@@ -157,6 +157,10 @@ func cgSnap(r *rux.Router) (canon string, keys []string, vals []*rux.Route, ll, 
 	keys, vals, ll, ml, _ = c.VerifSnapshot()
 	var sb strings.Builder
 	for i, k := range keys {
+		if vals[i] == nil {
+			fmt.Fprintf(&sb, "[%s -> <no route>]", k)
+			continue
+		}
 		fmt.Fprintf(&sb, "[%s -> route %d {%s}]", k, routeIdx(vals[i]), canonParams(vals[i].VerifParams()))
 	}
 	return sb.String(), keys, vals, ll, ml
